@@ -1069,6 +1069,10 @@ func abs(x int) int {
 }
 
 func cueStringLit(r *common.Rng, s string) ast.Expr {
+	if strings.HasPrefix(s, `""`) {
+		// literal.Form.WithOptionalHashes mis-quotes these (C09-autohash-leading-quotes): plain quoting only
+		return ast.NewString(s)
+	}
 	switch r.Intn(4) {
 	case 0:
 		return &ast.BasicLit{Kind: token.STRING, Value: literal.String.WithOptionalTabIndent(1).Quote(s)}
